@@ -85,7 +85,8 @@ func checksBytes() {
 		`ghost.buf == put(old(ghost.buf), this, old(ghost.buf)[this] + s)`,
 		`err == nil`}}
 	cWriteRune := contract{F, P, "(Buffer) WriteRune", 11, []string{
-		`ghost.buf == put(old(ghost.buf), this, old(ghost.buf)[this] + fromCode(r))`,
+		`0 <= r && r < 128 ==> ghost.buf == put(old(ghost.buf), this, old(ghost.buf)[this] + fromCode(r))`,
+		`forall b ref :: b != this && b in old(ghost.buf) ==> b in ghost.buf && ghost.buf[b] == old(ghost.buf)[b]`,
 		`err == nil`}}
 	cReset := contract{F, P, "(Buffer) Reset", 15, []string{`ghost.buf == put(old(ghost.buf), this, "")`}}
 	cString := contract{F, P, "(Buffer) String", 18, []string{`r == ghost.buf[this]`}}.withNote(
@@ -162,11 +163,12 @@ func checksBytes() {
 		bs[1].WriteString("other")
 		st := applyBufOp(bs, bufOp{name: fmt.Sprintf("WriteRune(%#x)", r), buf: 0, kind: 1, r: r})
 		want := append(model(st.before[0]), fromCode(int64(r))...)
-		t.Check(model(st.after[0]).eq(want) && frame(st), cWriteRune.ensures[0],
+		t.Check(!(0 <= r && r < 128) || (model(st.after[0]).eq(want) && frame(st)), cWriteRune.ensures[0],
 			"after WriteString(%q), WriteRune(%#x): text %q -> %q (bytes % x), the clause gives the %d-character text with codes %v", prefix, r, st.before[0], st.after[0], st.after[0], len(want), []int32(want))
-		t.Check(st.err == nil, cWriteRune.ensures[1], "WriteRune(%#x): err=%v", r, st.err)
+		t.Check(frame(st), cWriteRune.ensures[1], "WriteRune(%#x) on one buffer changed the text of another: %q -> %q", r, st.before[1], st.after[1])
+		t.Check(st.err == nil, cWriteRune.ensures[2], "WriteRune(%#x): err=%v", r, st.err)
 	}
-	check("Buffer.WriteRune appends the one-character text fromCode(r), restricted to ASCII runes (0 <= r < 0x80)", []contract{cWriteRune},
+	check("Buffer.WriteRune of an ASCII rune (0 <= r < 128) appends the one-character text fromCode(r); other buffers keep their text; nil error", []contract{cWriteRune},
 		"all 128 ASCII runes after the texts \"\", \"a\", \"ab\\xc3\"", func(t *T) {
 			for _, p := range []string{"", "a", "ab\xc3"} {
 				for _, r := range ascii {
@@ -174,7 +176,7 @@ func checksBytes() {
 				}
 			}
 		})
-	check("Buffer.WriteRune appends the one-character text fromCode(r), as declared (every rune)", []contract{cWriteRune},
+	check("Buffer.WriteRune of every rune: the text clause is claimed for ASCII only (others are UTF-8 sequences / U+FFFD); other buffers keep their text; nil error", []contract{cWriteRune},
 		fmt.Sprintf("%d runes (negative, ASCII, 0x80..0xff, multi-byte, surrogate, beyond 0x10ffff / 0x2ffff) after the texts \"\", \"a\"", len(runes)), func(t *T) {
 			for _, p := range []string{"", "a"} {
 				for _, r := range runes {
